@@ -441,11 +441,13 @@ def gen_history(rng, focus, nops, hcfg):
             level = rng.choice([1, 2, 3, 4, 5, 0x11, 0x7D, 0x7E, 0x3F]) if rng.random() < 0.92 else rng.choice([0, 0x7F])
             sp = rng.choice([b'', b'', b'\x01\x02'])
             seedsf = level if level % 2 == 1 else level - 1
-            skind = rng.choice(['good'] * 5 + ['zero', 'zero1', 'neg', 'silence', 'invalid', 'badecho', 'empty_seed', 'pend_good'])
+            skind = rng.choice(['good'] * 5 + ['zero', 'zero1', 'neg', 'silence', 'invalid', 'badecho', 'badecho', 'empty_seed', 'pend_good'])
             seed = bytes(rng.randrange(1, 256) for _ in range(rng.choice([1, 2, 4, 4, 8, 40])))
             a1 = {'good': [(1, bytes([0x67, seedsf & 0xFF]) + seed)], 'zero': [(1, bytes([0x67, seedsf & 0xFF]) + bytes(len(seed)))],
                   'zero1': [(1, bytes([0x67, seedsf & 0xFF, 0]))], 'neg': [(1, bytes([0x7F, 0x27, rng.choice([0x22, 0x35, 0x37])]))], 'silence': [],
-                  'invalid': [(1, b'\x7f\x27')], 'badecho': [(1, bytes([0x67, (seedsf + 2) & 0x7F]) + seed)], 'empty_seed': [(1, bytes([0x67, seedsf & 0xFF]))],
+                  'invalid': [(1, b'\x7f\x27')],
+                  # another level, the key sub-function of the same level, the requested level with bit 7 set (the suppress bit is no part of an echo)
+                  'badecho': [(1, bytes([0x67, rng.choice([(seedsf + 2) & 0x7F, (seedsf + 1) & 0x7F, (seedsf | 0x80) & 0xFF, (seedsf | 0x80) & 0xFF, (seedsf ^ 0x40) & 0xFF])]) + seed)], 'empty_seed': [(1, bytes([0x67, seedsf & 0xFF]))],
                   'pend_good': [(1, b'\x7f\x27\x78'), (4, bytes([0x67, seedsf & 0xFF]) + seed)]}[skind]
             kkind = rng.choice(['good'] * 4 + ['neg', 'silence', 'badecho'])
             a2 = {'good': [(1, bytes([0x67, (seedsf + 1) & 0xFF]))], 'neg': [(1, b'\x7f\x27\x35')], 'silence': [], 'badecho': [(1, bytes([0x67, seedsf & 0xFF]))]}[kkind]
